@@ -188,11 +188,27 @@ class Lin(ast.NodeVisitor):
 # it is handed (the grammar puts one Call object under several parents; the caller keeps the tree it formats).  The analysis
 # is flow-insensitive: a name is "given" when it is a parameter (of the function or of a function nested in it) or bound
 # to a part of something given (subscript, attribute, .get / .items / .values, iteration); a write is an assignment to,
-# deletion of, or mutating method call on a part of something given.  Rebinding a name to a fresh object does not clear it,
-# so the answer may over-approximate; on the pinned tree it is empty.
+# deletion of, or mutating method call on a part of something given.  Only a rebinding to a new container by a statement
+# directly in a function body clears a name (for the lines below it), so the answer may over-approximate; on the pinned
+# tree it is empty.
 MUTATORS = {"append", "extend", "update", "pop", "insert", "clear", "setdefault", "sort", "reverse", "remove", "popitem", "add", "discard", "__setitem__", "__delitem__"}
 VIEW_METHODS = {"get", "items", "values", "keys", "copy_ref"}
 VIEW_FUNCS = {"enumerate", "reversed", "iter", "zip", "listwrap", "first", "next", "sorted_ref"}
+
+
+def _fresh(e):
+    """an expression that certainly builds a new container"""
+    if isinstance(e, (ast.Dict, ast.List, ast.Set, ast.ListComp, ast.DictComp, ast.SetComp)):
+        return True
+    if isinstance(e, ast.Call):
+        f = e.func
+        if isinstance(f, ast.Name) and f.id in ("dict", "list", "set", "sorted", "deepcopy", "OrderedDict"):
+            return True
+        if isinstance(f, ast.Attribute) and f.attr in ("copy", "deepcopy") and not e.args:
+            return True
+        if isinstance(f, ast.Attribute) and f.attr == "deepcopy":
+            return True
+    return False
 
 
 def argument_writes(mod, func):
@@ -248,9 +264,26 @@ def argument_writes(mod, func):
             elif isinstance(n, ast.withitem) and n.optional_vars is not None and view(n.context_expr):
                 changed |= bind(n.optional_vars)
     out = []
+    # a name rebound to a NEW container by a statement directly in a function body (so that it runs before everything
+    # below it) no longer stands for what was given: writes through that name below that line are not counted
+    fresh_from = {}
+    for f in ast.walk(func):
+        if isinstance(f, ast.FunctionDef):
+            for st in f.body:
+                if isinstance(st, ast.Assign) and len(st.targets) == 1 and isinstance(st.targets[0], ast.Name) and _fresh(st.value):
+                    fresh_from.setdefault(st.targets[0].id, st.lineno)
+
+    def root(e):
+        while isinstance(e, (ast.Subscript, ast.Attribute, ast.Starred)):
+            e = e.value
+        return e.id if isinstance(e, ast.Name) else None
+
+    def counted(e, lineno):
+        r = root(e)
+        return not (r in fresh_from and fresh_from[r] < lineno)
 
     def target_write(t, how):
-        if isinstance(t, (ast.Subscript, ast.Attribute)) and view(t.value):
+        if isinstance(t, (ast.Subscript, ast.Attribute)) and view(t.value) and counted(t.value, t.lineno):
             out.append("%s.%s:%s %s" % (mod, func.name, how, ast.unparse(t)))
         elif isinstance(t, (ast.Tuple, ast.List)):
             for x in t.elts:
@@ -267,7 +300,7 @@ def argument_writes(mod, func):
         elif isinstance(n, ast.Delete):
             for t in n.targets:
                 target_write(t, "del")
-        elif isinstance(n, ast.Call) and isinstance(n.func, ast.Attribute) and n.func.attr in MUTATORS and view(n.func.value):
+        elif isinstance(n, ast.Call) and isinstance(n.func, ast.Attribute) and n.func.attr in MUTATORS and view(n.func.value) and counted(n.func.value, n.lineno):
             out.append("%s.%s:call %s.%s" % (mod, func.name, ast.unparse(n.func.value), n.func.attr))
     return sorted(set(out))
 
